@@ -20,7 +20,9 @@ use crate::verif::refcodec::link as reflink;
 use crate::verif::refcodec::link::RefFrame;
 use crate::verif::refcodec::transport as reftr;
 use crate::verif::rng::{mix, Rng};
-use crate::verif::runner::{erase, shrink_vec, Codec, Outcome, Property, Scenario, Tier, Violation};
+use crate::verif::runner::{
+    erase, shrink_vec, Codec, Outcome, Property, Scenario, Tier, Violation,
+};
 use serde::{Deserialize, Serialize};
 use std::sync::{Arc, Mutex};
 
@@ -69,7 +71,8 @@ pub fn property<C: Codec>() -> Property {
 }
 
 const FLENS: [usize; 24] = [
-    1, 2, 100, 247, 248, 249, 250, 251, 497, 498, 499, 500, 746, 747, 748, 996, 997, 1245, 1494, 1743, 1992, 2047, 2048, 2048,
+    1, 2, 100, 247, 248, 249, 250, 251, 497, 498, 499, 500, 746, 747, 748, 996, 997, 1245, 1494,
+    1743, 1992, 2047, 2048, 2048,
 ];
 
 fn content(f: &Frag) -> Vec<u8> {
@@ -122,7 +125,10 @@ impl Scenario for TransScenario {
     }
 
     fn stub_components(&self) -> Vec<&'static str> {
-        vec!["physical layer (SimSocket)", "frame-level fault stage between writers and reader"]
+        vec![
+            "physical layer (SimSocket)",
+            "frame-level fault stage between writers and reader",
+        ]
     }
 
     fn generate(&self, rng: &mut Rng, _tier: Tier) -> Case {
@@ -182,14 +188,22 @@ impl Scenario for TransScenario {
             });
         }
         let has_flip = faults.iter().any(|f| matches!(f, FFault::Flip(..)));
-        let close_mode = if has_flip { rng.chance(1, 4) } else { rng.bool() };
+        let close_mode = if has_flip {
+            rng.chance(1, 4)
+        } else {
+            rng.bool()
+        };
         let cuts = match rng.below(6) {
             0 => vec![1],
             1 => vec![4096],
             2 => (0..rng.urange(1, 6)).map(|_| rng.urange(1, 3)).collect(),
-            3 => (0..rng.urange(1, 8)).map(|_| *rng.pick(&[1usize, 9, 10, 11, 17, 18, 19, 28, 291, 292, 293, 584])).collect(),
+            3 => (0..rng.urange(1, 8))
+                .map(|_| *rng.pick(&[1usize, 9, 10, 11, 17, 18, 19, 28, 291, 292, 293, 584]))
+                .collect(),
             4 => (0..rng.urange(2, 8)).map(|_| rng.urange(1, 60)).collect(),
-            _ => (0..rng.urange(2, 6)).map(|_| rng.urange(100, 900)).collect(),
+            _ => (0..rng.urange(2, 6))
+                .map(|_| rng.urange(100, 900))
+                .collect(),
         };
         Case {
             reader_is_master,
@@ -271,16 +285,25 @@ impl Scenario for TransScenario {
             Exit::Done => {}
             Exit::Panic(task, msg, loc) => {
                 if loc.contains("/verif/") {
-                    outcome.harness_error = Some(format!("harness panic in {}: {} at {}", task, msg, loc));
+                    outcome.harness_error =
+                        Some(format!("harness panic in {}: {} at {}", task, msg, loc));
                 } else {
-                    outcome.violation = Some(Violation::new("C08/panic", loc.clone(), format!("task {} panicked: {} at {}", task, msg, loc)));
+                    outcome.violation = Some(Violation::new(
+                        "C08/panic",
+                        loc.clone(),
+                        format!("task {} panicked: {} at {}", task, msg, loc),
+                    ));
                 }
                 return outcome;
             }
             other => {
                 outcome.violation = Some(Violation::new(
                     "C08/no-termination",
-                    format!("{:?}", other).split('(').next().unwrap_or("").to_string(),
+                    format!("{:?}", other)
+                        .split('(')
+                        .next()
+                        .unwrap_or("")
+                        .to_string(),
                     format!("transport reader did not finish: {:?}", other),
                 ));
                 return outcome;
@@ -293,7 +316,10 @@ impl Scenario for TransScenario {
         for (k, v) in res.counters {
             outcome.count(k, v);
         }
-        outcome.count("fault.rechunk", report.counters.get("phys_reads").copied().unwrap_or(0));
+        outcome.count(
+            "fault.rechunk",
+            report.counters.get("phys_reads").copied().unwrap_or(0),
+        );
         outcome
     }
 }
@@ -331,7 +357,9 @@ async fn drive(sim: &kernel::Sim, case: &Case) -> RunResult {
         let mut phys = PhysLayer::Sim(Box::new(sock));
         let mut writer = Writer::new(sender_type, ep(case.sender_addr[s]));
         for _ in 0..case.pre_advance[s] {
-            let _ = writer.write(&mut phys, DecodeLevel::nothing(), dest, &[0xEE]).await;
+            let _ = writer
+                .write(&mut phys, DecodeLevel::nothing(), dest, &[0xEE])
+                .await;
         }
         io::chan_drain(&outbox);
         let mut seq = case.pre_advance[s] & 0x3F;
@@ -340,8 +368,19 @@ async fn drive(sim: &kernel::Sim, case: &Case) -> RunResult {
                 continue;
             }
             let data = content(f);
-            if let Err(err) = writer.write(&mut phys, DecodeLevel::nothing(), dest, &data).await {
-                seg_violation = Some(Violation::new("C08/write-failed", "", format!("writer returned {:?} for a {}-byte fragment", err, data.len())));
+            if let Err(err) = writer
+                .write(&mut phys, DecodeLevel::nothing(), dest, &data)
+                .await
+            {
+                seg_violation = Some(Violation::new(
+                    "C08/write-failed",
+                    "",
+                    format!(
+                        "writer returned {:?} for a {}-byte fragment",
+                        err,
+                        data.len()
+                    ),
+                ));
             }
             let frames = io::chan_drain(&outbox);
             // cross-check against the reference segmenter + framer
@@ -486,7 +525,8 @@ async fn drive(sim: &kernel::Sim, case: &Case) -> RunResult {
     let delivered: Arc<Mutex<Vec<(u16, Vec<u8>)>>> = Arc::new(Mutex::new(Vec::new()));
     let d2 = delivered.clone();
     let inbox = io::new_chan();
-    let sock = SimSocket::new("reader", inbox.clone(), io::new_chan(), ChunkMode::All, 0).with_plan(case.cuts.clone());
+    let sock = SimSocket::new("reader", inbox.clone(), io::new_chan(), ChunkMode::All, 0)
+        .with_plan(case.cuts.clone());
     let modes = LinkModes {
         error_mode: if case.close_mode {
             LinkErrorMode::Close
@@ -510,7 +550,9 @@ async fn drive(sim: &kernel::Sim, case: &Case) -> RunResult {
                 Ok(()) => {
                     while let Some(data) = reader.pop() {
                         if let TransportData::Fragment(f) = data {
-                            d2.lock().unwrap().push((f.info.addr.link.raw_value(), f.data.to_vec()));
+                            d2.lock()
+                                .unwrap()
+                                .push((f.info.addr.link.raw_value(), f.data.to_vec()));
                         }
                     }
                 }
@@ -559,10 +601,11 @@ async fn drive(sim: &kernel::Sim, case: &Case) -> RunResult {
     if violation.is_none() && !readdressed {
         // (i) exact attribution: unique contents
         for (src, data) in &got {
-            let ok = case
-                .fragments
-                .iter()
-                .any(|f| case.sender_addr[f.sender as usize] == *src && f.len == data.len() && &content(f) == data);
+            let ok = case.fragments.iter().any(|f| {
+                case.sender_addr[f.sender as usize] == *src
+                    && f.len == data.len()
+                    && &content(f) == data
+            });
             if !ok {
                 violation = Some(Violation::new(
                     "C08/i delivered-fragment-never-written",
@@ -585,7 +628,11 @@ async fn drive(sim: &kernel::Sim, case: &Case) -> RunResult {
             violation = Some(Violation::new(
                 "C08/iv fault-free-stream-not-delivered",
                 "",
-                format!("wrote {} deliverable fragments, reader delivered {}", want.len(), got.len()),
+                format!(
+                    "wrote {} deliverable fragments, reader delivered {}",
+                    want.len(),
+                    got.len()
+                ),
             ));
         }
     }
@@ -596,7 +643,12 @@ async fn drive(sim: &kernel::Sim, case: &Case) -> RunResult {
         counters.push(("probe.fragment_exceeds_rx_buffer", 1));
     }
     if case.pre_advance.iter().zip(0..2).any(|(p, s)| {
-        let n: usize = case.fragments.iter().filter(|f| f.sender == s).map(|f| (f.len + 248) / 249).sum();
+        let n: usize = case
+            .fragments
+            .iter()
+            .filter(|f| f.sender == s)
+            .map(|f| (f.len + 248) / 249)
+            .sum();
         *p as usize + n > 64
     }) {
         counters.push(("probe.sequence_wrapped", 1));
@@ -607,9 +659,19 @@ async fn drive(sim: &kernel::Sim, case: &Case) -> RunResult {
     counters.push(("fragments_written", case.fragments.len() as u64));
     counters.push(("fragments_delivered", got.len() as u64));
 
-    let mut h = mix(&[case.reader_is_master as u64, (case.rx_buffer / 249) as u64, case.close_mode as u64, case.interleave as u64]);
+    let mut h = mix(&[
+        case.reader_is_master as u64,
+        (case.rx_buffer / 249) as u64,
+        case.close_mode as u64,
+        case.interleave as u64,
+    ]);
     for f in &case.fragments {
-        h = mix(&[h, f.sender as u64, ((f.len + 248) / 249) as u64, (f.len % 249 == 0) as u64]);
+        h = mix(&[
+            h,
+            f.sender as u64,
+            ((f.len + 248) / 249) as u64,
+            (f.len % 249 == 0) as u64,
+        ]);
     }
     let total = frames.len().max(1);
     for f in &case.faults {
@@ -622,7 +684,11 @@ async fn drive(sim: &kernel::Sim, case: &Case) -> RunResult {
         };
         h = mix(&[h, v]);
     }
-    h = mix(&[h, case.cuts.len().min(4) as u64, case.cuts.first().copied().unwrap_or(0).min(20) as u64]);
+    h = mix(&[
+        h,
+        case.cuts.len().min(4) as u64,
+        case.cuts.first().copied().unwrap_or(0).min(20) as u64,
+    ]);
 
     RunResult {
         violation,
